@@ -325,12 +325,13 @@ pub fn emit_case<T: IntLike>(out: &mut Out, names: &[String], calls: &[MCall], o
                         out.line("op params");
                         let p = model.params();
                         out.line(&format!(
-                            "res ok {} {} | {} {} {}",
+                            "res ok {} {} | {} {} {} | {}",
                             p.len(),
                             p.iter().map(|x| x.to_i().to_string()).collect::<Vec<_>>().join(" "),
                             model.parameter_count(),
                             model.base_function_count(),
-                            model.output_len()
+                            model.output_len(),
+                            encs(&model.parameters().to_vec())
                         ));
                     }
                 }
